@@ -208,7 +208,8 @@ def _run(*a):
         return _graph(*a)
     from crosshair.core import realize
     from crosshair.tracers import NoTracing
-    b = [realize(x) for x in a]
+    from selpick import pick_all
+    b = pick_all(a)
     with NoTracing():
         return _graph(*b)
 
